@@ -1,4 +1,5 @@
 CONSTANT Instance = "plonk"
+CONSTANT NL = 2
 CONSTANT Disabled = {}
 CONSTANT Mutant = "circuit_skips_final_poly"
 INIT Init
